@@ -212,7 +212,7 @@ func cmdCheck(args []string) int {
 				continue
 			}
 			if a.Status == "unsat" {
-				engineErr += fmt.Sprintf("vacuity: %s is %s (contradictory preconditions?)\n", a.Name, a.Status)
+				viols = append(viols, violation{Obligation: a.Name, Kind: "vacuity", Clause: a.Text, Status: "unsat", Reason: "the preconditions and invariants assumed at entry contradict each other in the current code: every obligation of this function holds vacuously, nothing is proved"})
 			}
 			continue
 		}
@@ -275,7 +275,7 @@ func cmdCheck(args []string) int {
 			}
 			viols = append(viols, violation{Obligation: name, Kind: "translate", Status: "error", Reason: "the function under contract can no longer be translated, so its obligations cannot be discharged: " + r.Err})
 		} else if reach[r.Key] == 0 && unsatReturns(aggs, r.Key) == r.Returns && r.Returns > 0 {
-			engineErr += fmt.Sprintf("vacuity: no return of %s is reachable under its contract\n", r.Key)
+			viols = append(viols, violation{Obligation: r.Key + "/cover-return", Kind: "vacuity", Status: "unsat", Reason: "no return of the function is reachable under its contract in the current code (it always panics, never terminates, or its assumptions contradict the code): its postconditions hold vacuously, nothing is proved"})
 		}
 	}
 	for _, ov := range p.checkOwnership() {
